@@ -3,6 +3,7 @@ package main
 import (
 	"encoding/json"
 	"fmt"
+	rewact "github.com/Oneledger/protocol/action/rewards"
 	"math/rand"
 	"os"
 	"path/filepath"
@@ -124,6 +125,16 @@ func makeWarm(seed int64, blocks int, fr int64, scripts []string) (*warm, error)
 				fresh = append(fresh, t.TxSpec)
 			}
 		}
+	}
+	// kinds the warm-up never executed successfully still get bases (the honest form may fail: the hostile
+	// variants are what counts): a validator's reward withdrawal, and one naming an address that is no validator
+	if w := wm.w; perKind["WITHDRAW_REWARD"] == 0 && len(w.Vals) > 0 && len(w.Users) > 1 {
+		v := w.Vals[0]
+		mk := func(val keys.Address, signer *world.Account, note string) hist.TxSpec {
+			bz := txb.Tx(&rewact.Withdraw{ValidatorAddress: val, SignerAddress: signer.Addr, WithdrawAmount: txb.Amt("OLT", "1")}, txb.DefaultFee(), fmt.Sprintf("warm-wr-%d-%s", seed, note), signer)
+			return hist.TxSpec{Kind: "WITHDRAW_REWARD", Bytes: bz, Note: "reward withdrawal (" + note + ")", Signers: []string{signer.Addr.String()}}
+		}
+		fresh = append(fresh, mk(v.ValAddr, &v.Stake, "validator"), mk(w.Users[1].Addr, w.Users[1], "address that is no validator"))
 	}
 	wm.planned = fresh
 	r.Reps[0].Box.Quit()
@@ -396,7 +407,7 @@ type hostile struct {
 }
 
 var amountTraits = []struct{ name, val string }{
-	{"-1", "-1"}, {"-(2^64-1)", "-18446744073709551615"}, {"0", "0"}, {"2^63-1", "9223372036854775807"}, {"2^63", "9223372036854775808"},
+	{"-1", "-1"}, {"-(2^64-1)", "-18446744073709551615"}, {"0", "0"}, {"2^63-1", "9223372036854775807"}, {"2^63", "9223372036854775808"}, {"2^64-1", "18446744073709551615"},
 	{"2^64+1", "18446744073709551617"}, {"10^40", "10000000000000000000000000000000000000000"}, {"-10^30", "-1000000000000000000000000000000"},
 }
 
